@@ -527,6 +527,8 @@ const (
 
 	// starting accounts that exist but are empty (an EVM account record with nonce 0, no code, no balance)
 	exHollow = "EVM:hollow-account"
+	// contract code whose bytes equal the layered store's deletion marker
+	exCodeMarker = "EVM:code-equals-marker"
 )
 
 type exclusions struct {
